@@ -592,6 +592,17 @@ fn check_options_api(qi: usize) -> CaseResult {
             return Err(fail("with_keyword_syntaxes"));
         }
     }
+    // the plural setter takes a set: repeats and order do not matter
+    let mut repeated: Vec<KeywordSyntax> = enabled.iter().rev().copied().collect();
+    repeated.extend(enabled.iter().copied());
+    repeated.extend(enabled.iter().copied());
+    let plural2 = Options::new().with_keyword_syntaxes(repeated.iter());
+    let plural3 = Options::new().with_keyword_syntaxes(repeated.clone());
+    for (k, want) in kws {
+        if plural2.keyword_syntax(k) != want || plural3.keyword_syntax(k) != want {
+            return Err(fail("with_keyword_syntaxes with repeated entries"));
+        }
+    }
     // probe: the options behave as the getters say on a text that exercises all of them
     let probe = "(nil t :a b: #:c [x] \"\\x41;\" 1+ #%r)";
     let a = lexpr::from_str_custom(probe, o).map(|v| MV::from_value(&v)).map_err(|e| e.to_string());
